@@ -11,7 +11,7 @@ ID = 'C05'
 PADMODES = ('symmetric', 'reflect', 'periodic')
 RULE = ('Hypothesis draws (dim, direction analysis/synthesis, wavelet with filter length <= 20, mode (5), J in 1..3, sizes '
         'incl. odd and shorter than the filter (1-D <= 48, 2-D <= 12x12), N, C, the subset of {lowpass, level 1..J} that '
-        'requires grad (synthesis), in 2-D for a third of the cases separate column and row wavelets (4-tuple), cotangent recipes). Oracle: the matrix J_f of the function computed by the forward pass '
+        'requires grad (synthesis), in 2-D for a third of the cases separate column and row wavelets (4-tuple), cotangent recipes; for a quarter of the cases the filters of the module are overwritten in place between the forward pass and a second pull-back through the recorded graph, which must be refused or unchanged). Oracle: the matrix J_f of the function computed by the forward pass '
         '(basis inputs, no_grad); torch.autograd.grad with basis cotangents in batch slots must give J_f^T for every input of '
         'the subset (never None); a dense (N,C) VJP must equal the per-slice action of that matrix. Inside the predicate of '
         'known finding D2 the observed VJP must equal EITHER J_f^T OR the independently modelled defective operator (adjoint '
@@ -61,7 +61,7 @@ def _case(draw, unit):
             size[1] = max(size[1], dwtu.even_up(L2) * 2 ** (J - 1))
     case = {'dim': dim, 'direction': direction, 'wave': w, 'wave_row': w2, 'mode': mode, 'J': J, 'size': size,
             'N': draw(st.sampled_from([1, 2])), 'C': draw(st.sampled_from([1, 2])),
-            'reused': draw(st.integers(0, 3)) == 0,
+            'reused': draw(st.integers(0, 3)) == 0, 'overwrite': draw(st.integers(0, 3)) == 0,
             'rx': draw(core.recipe_strategy()), 'rg': draw(core.recipe_strategy(kinds=core.RECIPE_KINDS + ['contrast'])), 'k': draw(st.integers(0, 10**6))}
     if direction == 'synthesis':
         names = ['low'] + list(range(J))
@@ -304,6 +304,12 @@ def _analysis(case, r, per_axis):
         if not okc:
             r.fail('analysis_vjp_slices:dim%d' % dim, 'the (N,C) backward is not the per-slice action of the N=C=1 backward: '
                    + core.first_mismatch(Gd.numpy(), wantd, told))
+    if case.get('overwrite') and not r.failed:
+        xs = torch.tensor(core.make(case['rx'], [case['N'], case['C']] + size), requires_grad=True)
+        o4 = core.libcall(fwd, xs)
+        outs = [o4[0]] + list(o4[1])
+        cts = [torch.tensor(core.make({**case['rg'], 'seed': case['rg']['seed'] + i}, t.shape)) for i, t in enumerate(outs)]
+        dwtu.backward_after_overwrite(r, fwd, outs, [xs], cts, 'forward DWT', pick=case['k'])
     return r
 
 
@@ -442,6 +448,13 @@ def _synthesis(case, r, per_axis):
             if not okc:
                 r.fail('synthesis_vjp_slices:dim%d' % dim, 'the (N,C) backward of %s is not the per-slice action of the '
                        'N=C=1 backward: %s' % (k, core.first_mismatch(gk.numpy(), wantd, told)))
+    if case.get('overwrite') and not r.failed and not (d2c and out_may_raise):
+        N, C = case['N'], case['C']
+        pd = {k: core.make({**case['rx'], 'seed': case['rx']['seed'] + 7 + i}, (N, C) + shapes[k]) for i, k in enumerate(names)}
+        tsd = {k: torch.tensor(pd[k]).requires_grad_(k in sub) for k in names}
+        y = core.libcall(inv, (tsd['low'], [tsd[j] for j in range(J)]))
+        dwtu.backward_after_overwrite(r, inv, [y], [tsd[k] for k in sub], [torch.tensor(core.make(case['rg'], y.shape))],
+                                      'inverse DWT', pick=case['k'])
     return r
 
 
